@@ -2715,23 +2715,12 @@ void psX509FreeCert(psX509Cert_t *cert)
             psFree(curr->uniqueSubjectId, pool);
         }
 
-# ifdef USE_ROT_ECC
-        if (curr->pubKeyAlgorithm == OID_ECDSA_KEY_ALG)
-        {
-            psFree(curr->tbsCertStart, pool);
-        }
-# endif
-# ifdef USE_ROT_RSA
-        if (curr->pubKeyAlgorithm == OID_RSA_KEY_ALG)
-        {
-            psFree(curr->tbsCertStart, pool);
-        }
-# endif
-# if defined(USE_CL_RSA) && defined(USE_PKCS1_PSS)
-        if (curr->pubKeyAlgorithm == OID_RSASSA_PSS)
-        {
-            psFree(curr->tbsCertStart, pool);
-        }
+# if defined(USE_ED25519) || defined(USE_ROT_ECC) || defined(USE_ROT_RSA) || (defined(USE_CL_RSA) && defined(USE_PKCS1_PSS))
+        /* The copy of the TBSCertificate is made according to the algorithm
+           that SIGNED the certificate (see parse_single_cert), not according
+           to the type of the subject key: release it whenever it exists. */
+        psFree(curr->tbsCertStart, pool);
+        curr->tbsCertStart = NULL;
 # endif
         if (curr->publicKey.type != PS_NOKEY)
         {
@@ -2752,7 +2741,6 @@ void psX509FreeCert(psX509Cert_t *cert)
 
 #  ifdef USE_ED25519
             case OID_ED25519_KEY_ALG:
-                psFree(curr->tbsCertStart, pool);
                 break;
 #  endif
 
